@@ -16,6 +16,11 @@ BAD_UUIDS = [
     ("trailing-newline", "3f2504e0-4f89-41d3-9a0c-0305e82c3301\n"), ("nil", "00000000-0000-0000-0000-000000000000"),
     ("max", "ffffffff-ffff-ffff-ffff-ffffffffffff"), ("ncs-variant", "3f2504e0-4f89-41d3-1a0c-0305e82c3301"),
     ("not-hex", "3f2504e0-4f89-41d3-9a0c-0305e82c33zz"), ("empty", ""), ("spaces", " 3f2504e0-4f89-41d3-9a0c-0305e82c3301 "),
+    # a well-formed UUID followed / preceded by characters that lenient UUID readers (uuid.UUID) silently drop
+    ("trailing-brace", "3f2504e0-4f89-41d3-9a0c-0305e82c3301}"), ("trailing-hyphen", "3f2504e0-4f89-41d3-9a0c-0305e82c3301-"),
+    ("trailing-urn", "3f2504e0-4f89-41d3-9a0c-0305e82c3301urn:"), ("leading-brace", "{3f2504e0-4f89-41d3-9a0c-0305e82c3301"),
+    ("trailing-braces", "3f2504e0-4f89-41d3-9a0c-0305e82c3301}}"), ("trailing-uuid-word", "3f2504e0-4f89-41d3-9a0c-0305e82c3301uuid:"),
+    ("trailing-text", "3f2504e0-4f89-41d3-9a0c-0305e82c3301x"),
 ]
 V1_UUID = "e4b1c2d0-7e2c-11ea-bc55-0242ac130003"
 
@@ -271,6 +276,11 @@ def constraint_breaks(doc, ver, clsname, path=()):
             for p in absent:
                 if present and p in samples:
                     out.append({"path": list(path) + [p], "op": "add", "kind": "constraint:xor:both", "value": samples[p]})
+                    if isinstance(samples[p], str):
+                        # present is present: the second member with a *falsy* value, and the first one falsy next to a truthy second
+                        out.append({"path": list(path) + [p], "op": "add", "kind": "constraint:xor:both:second-empty", "value": ""})
+                        if isinstance(doc.get(present[0]), str):
+                            out.append({"path": list(path) + [p], "op": "add", "kind": "constraint:xor:both:first-empty", "value": samples[p], "also_set": {present[0]: ""}})
         elif k == "requires":
             if c["if"] in doc:
                 for p in c["then"]:
